@@ -274,8 +274,18 @@ def repeated_runs(acc):
     """Nesting equals inlining on EVERY run of one graph object, not only the first: inner functions mutate their
     mutable signature defaults (list, dict member), the flat graph and each nested form (depth 1-3, plain and with a
     renamed wrapper input, inner default surfacing through the wrapper) are run three times on one runner."""
+    _repeated_runs(acc, "own")
+    _repeated_runs(acc, "shared")
+
+
+def _repeated_runs(acc, variant):
+    """variant 'own': each function has its own defaulted parameter; 'shared': both functions take ONE parameter name with the
+    same mutable default (in the flat graph each node resolves - and copies - it for itself)."""
     f = T.fn("f", ["x", "bag"], ["out"], defaults={"bag": {"$list": []}}, behav={"py": "(bag.append(x), tuple(bag))[1]"})
-    g = T.fn("g", ["out", "seen"], ["res"], defaults={"seen": {"$list": [["s", 0]]}}, behav={"py": "(seen.append(len(seen)), (out, tuple(seen)))[1]"})
+    if variant == "own":
+        g = T.fn("g", ["out", "seen"], ["res"], defaults={"seen": {"$list": [["s", 0]]}}, behav={"py": "(seen.append(len(seen)), (out, tuple(seen)))[1]"})
+    else:
+        g = T.fn("g", ["out", "bag"], ["res"], defaults={"bag": {"$list": []}}, behav={"py": "(bag.append(('g', len(bag))), (out, tuple(bag)))[1]"})
     flat = T.prog([f, g])
     forms = {"flat": (flat, {})}
     w1 = wrap(flat, ["f"], "w1")
@@ -305,7 +315,7 @@ def repeated_runs(acc):
                 x = execute(prog, {rn.get("x", "x"): ["prov", "x"]}, runner=runner, h=h, graph=gr, error_handling="continue")
                 acc.evaluations += 1
                 views.append((x.status, None if x.result is None else tuple(sorted(x.result.values.items(), key=repr))))
-            acc.key(("repeated", name, runner))
+            acc.key(("repeated", variant, name, runner))
             if name == "flat":
                 ref = views
                 if len(set(views)) != 1:
@@ -313,7 +323,7 @@ def repeated_runs(acc):
                 continue
             for k, (v, r) in enumerate(zip(views, ref)):
                 if v != r:
-                    acc.violation({"symptom": "values-differ", "repeated_run": True, "form": name.split("-")[0]}, {"repeated_runs": name, "runner": runner}, f"{name}, run #{k + 1} of the same graph object: {jsonable(v)} but the flat graph's run #{k + 1} gives {jsonable(r)}", size=k)
+                    acc.violation({"symptom": "values-differ", "repeated_run": True, "form": name.split("-")[0], **({"shared_default_name": True} if variant == "shared" else {})}, {"repeated_runs": name, "runner": runner, "variant": variant}, f"{name} ({variant} defaulted parameter), run #{k + 1} of the same graph object: {jsonable(v)} but the flat graph's run #{k + 1} gives {jsonable(r)}", size=k)
                     break
 
 
